@@ -393,11 +393,17 @@ class Engine:
                 args = [pt.sym(nm) for nm, pt in k.signature]
                 for nm, cond in k.requires(*args):
                     c.assume(cond)
-                c.sqrt_hints = list(k.sqrt_hints(*args))
-                c.sign_hints = list(k.sign_hints(*args))
+                c.n_pre_obl = len(c.obligations)
+                # proof hints are evaluated speculatively: their divisions assert nothing; ghost square
+                # roots they introduce keep their obligations (they are part of this function's obligations)
+                c.speculative = True
+                try:
+                    c.sqrt_hints = list(k.sqrt_hints(*args))
+                    c.sign_hints = list(k.sign_hints(*args))
+                finally:
+                    c.speculative = False
                 c.probe_env = self.probe_env(k)
                 actual = k.actuals(*args)
-                c.n_pre_obl = len(c.obligations)
                 try:
                     res = fn(*actual)
                     outcome = ('return', res)
